@@ -58,8 +58,56 @@ typedef struct {
   long skv[400]; int nskv;       /* absolute offsets of the seeks issued during the current API call (first 400) */
 } src_t;
 
-typedef struct { OggVorbis_File vf; src_t src; int live; int opened; file_t *F; long long delivered; } hnd_t;
+/* what the lapped region in front of a handle must hold if it is the window-weighted cross-fade the property describes
+   (set by a lapping call that returned 0; position-indexed, so it stays valid until the next lapping call of the handle) */
+typedef struct { int active; long at; int n; int hs; int ch; float **exp; } lapx_t;
+typedef struct { OggVorbis_File vf; src_t src; int live; int opened; file_t *F; long long delivered; lapx_t lx; } hnd_t;
 static hnd_t H[MAXH];
+
+static void lapx_clear(lapx_t *x){ if(x->exp){ for(int c=0;c<x->ch;c++) free(x->exp[c]); free(x->exp); } memset(x,0,sizeof *x); }
+/* Expectation of a lapping call, straight from the property statement: sample i (0 <= i < n, n = the smaller of the two half short
+   blocks in returned samples) of the audio at the new position `t1` (link ln of F2) cross-faded with sample i of the audio that would
+   have been read next at the old position `t0` (link lo of F1), weights w[i]^2 and 1-w[i]^2 with w the rising half of the Vorbis
+   window of length 2n (Vorbis I, 4.3.1: sin(pi/2 sin^2((i+1/2)/2n pi))); channels the old link lacks fade in from silence.
+   Logged: lbn, lbfrom, lblo, lbat - the model decides whether the expectation applies (old audio present, new audio decoded) and
+   whether these are the positions it has itself.  Returns n, or 0 when the reference audio is not at hand. */
+static int lapx_set(lapx_t *x,file_t *F1,int lo,long t0,int hs1,file_t *F2,int ln,long t1,int hs2){
+  lapx_clear(x);
+  if(!F1||!F2||t0<0||t1<0||lo<0||lo>=F1->nlinks||ln<0||ln>=F2->nlinks) return 0;
+  link_t *L1=F1->links[lo],*L2=F2->links[ln];
+  float **r1=hs1?L1->refh:L1->ref, **r2=hs2?L2->refh:L2->ref; long nr1=hs1?L1->nrefh:L1->nref, nr2=hs2?L2->nrefh:L2->nref;
+  if(!r1||!r2) return 0;
+  long p0=t0-F1->start[lo], p1=t1-F2->start[ln];
+  if(p0<0||p1<0||(hs1&&(p0&1))||(hs2&&(p1&1))) return 0;
+  long q0=hs1?p0>>1:p0, q1=hs2?p1>>1:p1;
+  int n1=(int)(L1->bs0>>(1+hs1)), n2=(int)(L2->bs0>>(1+hs2)), n=n1<n2?n1:n2;
+  if(n<=0||nr1<n||nr2<n||q0>nr1-n||q1>nr2-n) return 0;   /* (positions on damaged files can be anywhere in 64 bits) */
+  x->exp=calloc(L2->ch,sizeof(float*)); x->ch=L2->ch; x->n=n; x->hs=hs2; x->at=t1;
+  for(int c=0;c<L2->ch;c++){
+    x->exp[c]=malloc(n*sizeof(float));
+    for(int i=0;i<n;i++){
+      float w=(float)sin(M_PI/2.*sin((i+.5)/(2.*n)*M_PI)*sin((i+.5)/(2.*n)*M_PI));
+      float wd=w*w, ws=1.f-wd;
+      float d=r2[c][q1+i], s=(c<L1->ch)?r1[c][q0+i]:0.f;
+      x->exp[c][i]=d*wd+s*ws;
+    }
+  }
+  x->active=1;
+  ev_i("lbn",n); ev_i("lbfrom",t0); ev_i("lblo",lo); ev_i("lbat",t1); ev_i("lbln",ln);
+  return n;
+}
+/* compare a returned chunk (position ta, n samples per channel) with the expectation where the two overlap: lbk samples compared, lbbad of them off */
+static void lapx_compare(lapx_t *x,int hs,long ta,float **pcm,int ch,long n){
+  if(!x->active||hs!=x->hs||ch!=x->ch||!pcm) return;
+  long k=0,bad=0;
+  for(long i=0;i<n;i++){
+    long p=ta+(i<<hs)-x->at; if(p<0||(hs&&(p&1))) continue; long idx=p>>hs; if(idx>=x->n) break;
+    k++; int off=0;
+    for(int c=0;c<ch;c++){ float e=x->exp[c][idx], g=pcm[c][i]; double tol=4e-6*(fabs(e)+fabs(g))+1e-9; if(!(fabs((double)e-g)<=tol)) off=1; }
+    bad+=off;
+  }
+  if(k>0){ ev_i("lbk",k); ev_i("lbbad",bad); }
+}
 static int g_cblog=0;
 static int g_sklog=0;
 
@@ -177,7 +225,7 @@ static void do_open(int h,file_t *F,const char *mode,long init){
   memset(&x->src,0,sizeof x->src); x->src.F=F; x->src.cblog=g_cblog;
   x->src.sr_mode=keep.sr_mode; x->src.sr_arg=keep.sr_arg; x->src.sr_rng=keep.sr_rng;
   x->src.f_kind=keep.f_kind; x->src.f_at=keep.f_at; x->src.f_persist=keep.f_persist; x->src.f_on=keep.f_on;
-  x->F=F; x->delivered=0;
+  x->F=F; x->delivered=0; lapx_clear(&x->lx);
   if(!strcmp(mode,"stream")) x->src.noseek=1;
   if(!strcmp(mode,"notell")) x->src.notell=1;
   call_begin(h);
@@ -217,6 +265,7 @@ static long do_readf(int h,long len){
     if(ident_at(x->F,hs,ta,pcm,ch,n)){ id=ta; mf=0; }
     else { id=ident_search(x->F,hs,pcm,ch,n); mf=ident_matchfrom(x->F,hs,ta,pcm,ch,n); }
     ev_i("ta",ta); ev_i("id",id); ev_i("mf",mf); ev_i("ch",ch);
+    lapx_compare(&x->lx,hs,ta,pcm,ch,n);
   }
   ev_state(h); ev_end();
   return n;
@@ -327,6 +376,14 @@ static int best_is_lone_tail(file_t *F,long pos){
   for(int j=0;j<F->npages;j++){ page_t *p=&F->pages[j]; if(p->link!=l||p->off<F->dataoff[l]||p->gp<0) continue; if(p->gp<tg) best=p; }
   return best && best->cont && best->npk==1;
 }
+/* a lapping seek returned 0: what its lapped region must hold (old position t0, decode state rs0 / cur0 before the call) */
+static void lap_expect_seek(hnd_t *x,long t0,int rs0,int cur0){
+  OggVorbis_File *vf=&x->vf; file_t *F=x->F;
+  if(!F||vf->ready_state!=4||!vf->vi||!vf->vi->codec_setup||t0<0||vf->pcm_offset<0){ lapx_clear(&x->lx); return; }
+  int hs=vorbis_synthesis_halfrate_p(vf->vi);
+  int lo = rs0>=3 ? cur0 : file_link_of_pos(F,t0);
+  lapx_set(&x->lx,F,lo,t0,hs,F,vf->current_link,(long)vf->pcm_offset,hs);
+}
 static void do_seek(int h,const char *cmd,const char *targ){
   hnd_t *x=&H[h]; OggVorbis_File *vf=&x->vf;
   long pos = x->F? resolve(x->F,targ) : atol(targ);
@@ -341,6 +398,7 @@ static void do_seek(int h,const char *cmd,const char *targ){
   else { ret=ov_raw_seek_lap(vf,pos); name="RawSeekLap"; }
   ev_begin(name); ev_i("pos",pos); ev_s("sym",targ); ev_i("ret",ret); ev_i("t0",t0); ev_i("rs0",rs0); ev_i("cur0",cur0); ev_i("off0",off0);
   if(!strcmp(cmd,"psp")||!strcmp(cmd,"pspl")) ev_i("bc",best_is_lone_tail(x->F,pos));
+  if(ret==0&&strstr(name,"Lap")) lap_expect_seek(x,t0,rs0,cur0);
   if(g_sklog){ char t[32]; ev_arr_begin("probes"); for(int k=0;k<x->src.nskv;k++){ snprintf(t,sizeof t,"%ld",x->src.skv[k]); ev_arr_raw(t); } ev_arr_end(); }
   ev_state(h); ev_end();
 }
@@ -370,6 +428,7 @@ static void do_tseek(int h,const char *cmd,long link,long rel,long q4){
   ev_begin(name); ev_i("link",link); ev_i("rel",rel); ev_i("q4",q4); ev_i("expect",expect); ev_b("inrange",inrange); ev_b("neg",sec<0);
   ev_i("ret",ret); ev_i("t0",t0); ev_i("rs0",rs0); ev_i("cur0",cur0);
   if((!strcmp(cmd,"tsp")||!strcmp(cmd,"tspl"))&&expect>=0) ev_i("bc",best_is_lone_tail(F,expect));
+  if(ret==0&&strstr(name,"Lap")) lap_expect_seek(x,t0,rs0,cur0);
   ev_state(h); ev_end();
 }
 
@@ -453,13 +512,18 @@ static int run_scenario(int from,int to,const char *name,int budget){
     else if(!strcmp(c,"rig")&&nt>=6) do_readi(atoi(tok[1]),atol(tok[2]),atoi(tok[3]),atoi(tok[4]),atoi(tok[5]),1);   /* through ov_read_filter with a gain-1/2 filter */
     else if((!strcmp(c,"ps")||!strcmp(c,"psp")||!strcmp(c,"rs")||!strcmp(c,"psl")||!strcmp(c,"pspl")||!strcmp(c,"rsl"))&&nt>=3) do_seek(atoi(tok[1]),c,tok[2]);
     else if((!strcmp(c,"ts")||!strcmp(c,"tsp")||!strcmp(c,"tsl")||!strcmp(c,"tspl"))&&nt>=5) do_tseek(atoi(tok[1]),c,atol(tok[2]),atol(tok[3]),atol(tok[4]));
-    else if(!strcmp(c,"hr")&&nt>=3){ int h=atoi(tok[1]); long t0=H[h].vf.pcm_offset; int rs0=H[h].vf.ready_state; call_begin(h); int ret=ov_halfrate(&H[h].vf,atoi(tok[2])); ev_begin("HalfRate"); ev_i("flag",atoi(tok[2])); ev_i("ret",ret); ev_i("t0",t0); ev_i("rs0",rs0); ev_state(h); ev_end(); }
+    else if(!strcmp(c,"hr")&&nt>=3){ int h=atoi(tok[1]); long t0=H[h].vf.pcm_offset; int rs0=H[h].vf.ready_state; call_begin(h); int ret=ov_halfrate(&H[h].vf,atoi(tok[2])); lapx_clear(&H[h].lx); ev_begin("HalfRate"); ev_i("flag",atoi(tok[2])); ev_i("ret",ret); ev_i("t0",t0); ev_i("rs0",rs0); ev_state(h); ev_end(); }
     else if(!strcmp(c,"xl")&&nt>=3){ int h1=atoi(tok[1]),h2=atoi(tok[2]); long t1=H[h1].vf.pcm_offset,t2=H[h2].vf.pcm_offset; int c10=H[h1].vf.current_link,r10=H[h1].vf.ready_state,c20=H[h2].vf.current_link,r20=H[h2].vf.ready_state; call_begin(h2); int ret=ov_crosslap(&H[h1].vf,&H[h2].vf); ev_begin("Crosslap"); ev_i("h1",h1); ev_i("h2",h2); ev_i("ret",ret); ev_i("t01",t1); ev_i("t02",t2); ev_i("t11",H[h1].vf.pcm_offset); ev_i("rs1",H[h1].vf.ready_state);
       /* the links whose decode state the two handles were in (a handle that sits exactly on a link boundary is still in the link that ends there) */
-      ev_i("cur10",r10>=3?c10:-1); ev_i("cur20",r20>=3?c20:-1); ev_i("cur11",H[h1].vf.ready_state>=3?H[h1].vf.current_link:-1); ev_state(h2); ev_end(); }
+      ev_i("cur10",r10>=3?c10:-1); ev_i("cur20",r20>=3?c20:-1); ev_i("cur11",H[h1].vf.ready_state>=3?H[h1].vf.current_link:-1);
+      if(ret==0){ OggVorbis_File *v1=&H[h1].vf,*v2=&H[h2].vf;
+        if(H[h1].F&&H[h2].F&&v1->vi&&v2->vi&&v1->vi->codec_setup&&v2->vi->codec_setup&&v2->ready_state==4&&v1->ready_state>=3&&t1>=0&&t2>=0)
+          lapx_set(&H[h2].lx,H[h1].F,v1->seekable?v1->current_link:-1,t1,vorbis_synthesis_halfrate_p(v1->vi),H[h2].F,v2->seekable?v2->current_link:-1,t2,vorbis_synthesis_halfrate_p(v2->vi));
+        else lapx_clear(&H[h2].lx); }
+      ev_state(h2); ev_end(); }
     else if(!strcmp(c,"q")&&nt>=2){ int h=atoi(tok[1]); call_begin(h); ev_begin("Query"); ev_linktable(h); ev_i("brall",ov_bitrate(&H[h].vf,-1)); ev_i("bri",ov_bitrate_instant(&H[h].vf)); ev_i("sn",ov_serialnumber(&H[h].vf,-1)); ev_i("hrp",ov_halfrate_p(&H[h].vf)); ev_state(h); ev_end(); }
     else if(!strcmp(c,"tell")&&nt>=2){ int h=atoi(tok[1]); OggVorbis_File *vf=&H[h].vf; call_begin(h); long long pt=ov_pcm_tell(vf), rt=ov_raw_tell(vf); double tt=ov_time_tell(vf); ev_begin("Tell"); ev_i("pt",pt); ev_i("rt",rt); ev_i("ttms",(long long)floor(tt*1000.0)); ev_state(h); ev_end(); }
-    else if(!strcmp(c,"clear")&&nt>=2){ int h=atoi(tok[1]); call_begin(h); int ret=ov_clear(&H[h].vf); H[h].opened=0; ev_begin("Clear"); ev_i("ret",ret); ev_state(h); ev_i("live",(long long)live_bytes()-(long long)live0); ev_end(); }
+    else if(!strcmp(c,"clear")&&nt>=2){ int h=atoi(tok[1]); call_begin(h); int ret=ov_clear(&H[h].vf); H[h].opened=0; lapx_clear(&H[h].lx); ev_begin("Clear"); ev_i("ret",ret); ev_state(h); ev_i("live",(long long)live_bytes()-(long long)live0); ev_end(); }
     else if(!strcmp(c,"fault")&&nt>=5){ src_t *s=&H[atoi(tok[1])].src; s->f_kind=atoi(tok[2]); s->f_at=atol(tok[3]); s->f_persist=atoi(tok[4]); s->f_on=1; s->f_fired=0; if(nt>=6&&!strcmp(tok[5],"rel")){ long base=(s->f_kind<=3)?s->nread:(s->f_kind==4?s->nseek:s->ntell); s->f_at+=base; } ev_begin("Fault"); ev_i("h",atoi(tok[1])); ev_i("kind",s->f_kind); ev_i("at",s->f_at); ev_i("persist",s->f_persist); ev_end(); }
     else if(!strcmp(c,"faultoff")&&nt>=2){ src_t *s=&H[atoi(tok[1])].src; s->f_on=0; ev_begin("FaultOff"); ev_i("h",atoi(tok[1])); ev_i("fired",s->f_fired); ev_end(); }
     else if(!strcmp(c,"sr")&&nt>=4){ src_t *s=&H[atoi(tok[1])].src; s->sr_mode=atoi(tok[2]); s->sr_arg=atol(tok[3]); s->sr_rng.s=s->sr_arg*77+5; }
